@@ -249,6 +249,29 @@ def keptRows (c : Case) : List Row :=
 
 /-! ### classifiers of the open findings (decidable predicates on the case) -/
 
+def exprCols : Expr → List Nat
+  | .col i => [i]
+  | .lit _ => []
+  | .cmp _ l r => exprCols l ++ exprCols r
+  | .and l r => exprCols l ++ exprCols r
+  | .or l r => exprCols l ++ exprCols r
+  | .not e => exprCols e
+  | .isNull e => exprCols e
+  | .isNotNull e => exprCols e
+  | .arith _ l r => exprCols l ++ exprCols r
+
+def referencedCols (c : Case) : List Nat :=
+  c.exprs.flatMap exprCols ++ (c.pred.map exprCols).getD [] ++ c.order.map (·.1)
+
+/-- `where-null-partition-empty` (C02/C03): some column of the WHERE clause is NULL in every row of one partition of
+    the realisation, so the predicate has type Null there (`Filter::Null`) and every selected column is replaced by the
+    `Empty` placeholder, which exists only for non-nullable primitive types. -/
+def whereNullPartition (c : Case) (r : Real) : Bool :=
+  let parts := (splitRows r.split c.rows).filter (fun p => !p.isEmpty)
+  ((c.pred.map exprCols).getD []).any fun k => parts.any (fun p => p.all (fun row => row.getD k .null == .null))
+
+
+
 /-- `sum-sentinel` (C04/C06/C02): some SUM / MIN / MAX over an integer column has a partial result — over the rows of
     one group in one partition of this realisation, or over the whole group — equal to i64::MAX. -/
 def sentinelPartial (c : Case) (split : List Nat) : Bool :=
@@ -354,6 +377,9 @@ def cellsExplained (cc ac : List Nat) : Nat → List Val → List Val → Option
       let rest := cellsExplained cc ac (i + 1) ss os
       if normCell s == normCell o then rest
       else if cc.contains i && s == .int 0 && (o == .null || o == .int 1) then rest.map ("count-null-group" :: ·)
+      -- MIN over +inf / MAX over -inf: the aggregator starts from f64::MAX / f64::MIN and never replaces it
+      else if (s == .float 9218868437227405312 && o == .float 9218868437227405311) ||
+              (s == .float 18442240474082181120 && o == .float 18442240474082181119) then rest.map ("minmax-float-infinity" :: ·)
       else match s with
         | .int v => if ac.contains i && o == .float (i2fNative v) then rest.map ("groupby-absent-column" :: ·) else none
         | _ => none
@@ -397,12 +423,30 @@ def wideIntKeys (part : List Row) (keys : List Nat) : Bool :=
       | [] => 1
       | v :: t => bitsFor ((t.foldl max v - t.foldl min v).toNat + 2)).sum > 63
 
-/-- Some partition at least as long as `batch_size` (the executor then streams it) groups through ValRows. -/
+/-- a key value beyond ±2^62: the planner's range arithmetic (`max - min`, `-min + 1`) does not fit i64 and (since /repo
+    2e73ee3) the key falls back to hash / value-row grouping instead of panicking -/
+def extremeIntKey (part : List Row) (k : Nat) : Bool :=
+  part.any fun r => match r.getD k .null with
+    | .int v => v ≤ -4611686018427387904 || v ≥ 4611686018427387904
+    | _ => false
+
+def intRangeWide (part : List Row) (k : Nat) : Bool :=
+  let vs := part.filterMap (fun r => match r.getD k .null with | .int v => some v | _ => none)
+  match vs with
+  | [] => false
+  | v :: t => t.foldl max v - t.foldl min v + 2 ≥ 65536
+
+/-- Some partition at least as long as `batch_size` (the executor then streams it) is grouped by hashing rather than
+    by array indexing: ≥ 2 keys through ValRows (packed string column or > 63 key bits), or a single key that is a
+    packed string column or an integer column whose range reaches 2^16 (query.rs: `group_by_plan.max < 1 << 16`). -/
 def valRowsStreamed (c : Case) (r : Real) : Bool :=
   let keys := keyCols c
-  keys.length ≥ 2 &&
-    ((splitRows r.split c.rows).any fun p =>
-      p.length ≥ r.batchSize && (keys.any (packedStringCol p) || wideIntKeys p keys))
+  (splitRows r.split c.rows).any fun p =>
+    p.length ≥ r.batchSize &&
+      ((keys.length ≥ 2 && (keys.any (packedStringCol p) || wideIntKeys p keys || keys.any (extremeIntKey p))) ||
+       (match keys with
+        | [k] => packedStringCol p k || intRangeWide p k
+        | _ => false))
 
 /-- `groupby-compressed-key-type` (C04/C02): with two or more bit-packed grouping columns the decoded key of a column whose
     data section is pco/lz4-compressed is cast to the width of the COMPRESSED section (u8) instead of the decoded
@@ -451,29 +495,18 @@ def classifyGrp (c : Case) (spec : Res (List Row)) (r : Real) : String :=
         else if c.kind = .grp && keysTruncated c s out then "groupby-compressed-key-type"
         -- both at once: groups emitted twice AND truncated keys (a layout with NULL keys and compressed key columns)
         else if c.kind = .grp && nullIntKey c && r.split.length ≥ 2 && keysTruncated c s (regroup c.sel out) then "groupby-null-key-order"
+        -- C04's classifier of this entry is the trigger alone (dropped partitions, misaligned aggregates, …)
+        else if absentSelected c r.split then "groupby-absent-column"
         else ""
   | .ok _, none =>
       if may && r.out = "err:overflow" then "sum-overflow-order"
+      else if whereNullPartition c r && (r.out = "err:fatal" || r.out = "err:canceled" || r.out = "panic") then "where-null-partition-empty"
       else if absentSelected c r.split then "groupby-absent-column"
       else ""
   | .overflow, some _ => if sentinelPartial c r.split then "sum-sentinel" else if may then "sum-overflow-order" else ""
   | _, _ => ""
 
 /-! ### classifiers for sel / ord -/
-
-def exprCols : Expr → List Nat
-  | .col i => [i]
-  | .lit _ => []
-  | .cmp _ l r => exprCols l ++ exprCols r
-  | .and l r => exprCols l ++ exprCols r
-  | .or l r => exprCols l ++ exprCols r
-  | .not e => exprCols e
-  | .isNull e => exprCols e
-  | .isNotNull e => exprCols e
-  | .arith _ l r => exprCols l ++ exprCols r
-
-def referencedCols (c : Case) : List Nat :=
-  c.exprs.flatMap exprCols ++ (c.pred.map exprCols).getD [] ++ c.order.map (·.1)
 
 /-! (`null-typed-partition` (C02) — ORDER BY tie between sentinel NULL and Val::Null, `Empty` on a Null-typed column —
     was repaired in /repo d5d65c1 / 02c9cc0; its classifier has been removed.) -/
@@ -490,6 +523,7 @@ def classifyOrdSel (c : Case) (r : Real) (_why : String) : String :=
   let c07 := classifyObs r.obs
   if c07 ≠ "" then c07
   else if c.kind = .ord && topNNullableKey c r && (r.out = "err:canceled" || r.out = "panic") then "topn-nullable-fused"
+  else if whereNullPartition c r && (r.out = "err:fatal" || r.out = "err:canceled" || r.out = "panic") then "where-null-partition-empty"
   else ""
 
 /-! ### one case -/
